@@ -16,12 +16,16 @@ func Spec(tier string, seed uint64, raceBin string) *core.CheckSpec {
 		budget = 40 * time.Minute
 	}
 	e := Engine{}
-	legs := []*core.Leg{{Name: "driver-sim", Runs: worlds, Opt: core.RunOpt{Tier: tier, Leg: "driver-sim"}}}
+	var legs []*core.Leg
 	if raceBin != "" {
+		// the race leg goes first: code that starts goroutines of its own can wedge the
+		// cooperative schedule of the plain leg (watchdog, exit 2), but the race
+		// detector has reported its unsynchronised accesses long before
 		legs = append(legs, &core.Leg{Name: "driver-sim-race", Bin: raceBin, Runs: raceWorlds, Offset: 1 << 30,
 			Opt: core.RunOpt{Tier: tier, Leg: "driver-sim-race", Params: map[string]string{"race": "1"}},
 			Env: core.RaceEnv(), OnWorkerDeath: core.RaceDeath(e, seed)})
 	}
+	legs = append(legs, &core.Leg{Name: "driver-sim", Runs: worlds, Opt: core.RunOpt{Tier: tier, Leg: "driver-sim"}})
 	return &core.CheckSpec{
 		Engine: e, Tier: tier, Seed: seed, Budget: budget, MaxExec: 600, Legs: legs,
 		Minimise: func(v *core.Violation, opt core.RunOpt) *core.Violation {
